@@ -250,6 +250,23 @@ def f20_backup_readdir_error(xcp, d):
             bad.append("%s: exit %d, the existing backup f.~1~ was replaced" % (drv, p.returncode))
     return bad
 
+def f21_parblock_fallback_eof(xcp, d):
+    """C05/C06: parblock with copy_file_range unavailable (EXDEV) on a sparse file whose last extent runs past EOF"""
+    bad = []
+    w = os.path.join(d, "w"); os.makedirs(w)
+    with open(os.path.join(w, "s"), "wb") as f:
+        f.seek(1000000); f.write(os.urandom(5000))
+    subprocess.run(["sync"])
+    res = {}
+    for drv in ("parfile", "parblock"):
+        p = subprocess.run(["strace", "-f", "-qq", "-o", "/dev/null", "-e", "trace=copy_file_range", "-e", "inject=copy_file_range:error=EXDEV",
+                            xcp, "--driver", drv, "s", "d-" + drv], cwd=w, env=dict(os.environ, RUST_BACKTRACE="0"), capture_output=True, text=True, timeout=120)
+        same = os.path.exists(os.path.join(w, "d-" + drv)) and open(os.path.join(w, "s"), "rb").read() == open(os.path.join(w, "d-" + drv), "rb").read()
+        res[drv] = (p.returncode, same)
+    if res["parblock"] != (0, True) or res["parfile"] != (0, True):
+        bad.append("exit status / identical copy per driver without copy_file_range: %r" % (res,))
+    return bad
+
 ALL = {"new:create-before-identity-check": f1_self_copy, "parfile:symlink-result-discarded": f2_symlink_result,
        "copy_node:dev-not-rdev": f3_device_number, "parblock:short-copy-not-retried": f5_short_copy,
        "walker:deref-does-not-follow-dir-links": f8_deref_dir_link, "finalise:chown-after-chmod": f9_setid_ownership,
@@ -262,7 +279,8 @@ ALL = {"new:create-before-identity-check": f1_self_copy, "parfile:symlink-result
        "walker:gitignore-error-dropped": f16_gitignore_unreadable,
        "walker:noclobber-dangling-link": f17_noclobber_dangling, "worker-special:dangling-link-not-replaced": f18_special_over_dangling,
        "main:block-size-zero": f19_block_size_zero,
-       "backup:readdir-error-swallowed": f20_backup_readdir_error}
+       "backup:readdir-error-swallowed": f20_backup_readdir_error,
+       "uspace-range:eof-is-an-error": f21_parblock_fallback_eof}
 
 def main():
     repo = sys.argv[1]
